@@ -262,6 +262,24 @@ pub fn gen_c09(out: &mut impl Write, seed: u64, thorough: bool) {
         if f.form == "tok" && i % 3 == 0 {
             writeln!(out, "tok.rt {} {} unit {}", be.name(), f.kind.name(), hex(s.as_bytes())).unwrap();
         }
+        // a payload type with a non-empty suffix: the same string, the string with the suffix where `Display` puts it
+        // (after the version) and where it must *not* be accepted (after the purpose, before the version's dot, doubled)
+        if f.form == "tok" && i % 2 == 0 {
+            let vh = with_v!(be, V => <V as Version>::HEADER);
+            let kh = kind_headers(f.kind).0;
+            let fk = if i % 6 == 0 { "unit" } else { "vec" };
+            let mut vars = vec![s.clone()];
+            if let Some(rest) = s.strip_prefix(vh).and_then(|x| x.strip_prefix(kh)) {
+                vars.push(format!("{vh}c{kh}{rest}"));
+                vars.push(format!("{vh}{kh}c{rest}"));
+                vars.push(format!("c{vh}{kh}{rest}"));
+                vars.push(format!("{vh}cc{kh}{rest}"));
+                vars.push(format!("{vh}C{kh}{rest}"));
+            }
+            for v in vars {
+                writeln!(out, "tokc.rt {} {} {fk} {}", be.name(), f.kind.name(), hex(v.as_bytes())).unwrap();
+            }
+        }
     }
 }
 
